@@ -13,7 +13,7 @@ ELEM = "element type instantiated to u64 / Nat in the correspondence runs (the t
 
 VEC_RULE = ("engine vec — exhaustive: (A) initial contents of length 0..3 x every mutator with every index 0..len+2, sequences of length 1 and 2 "
             "(thorough: 3), plain+batched subscriber; (B) every transaction body of length <=2 (thorough 3) over 16 ops x 5 ways of ending x with/without "
-            "subscribers; (C) capacities {1,2,3,4,5,7,8} x 0..B+3 unpolled updates x transactions x vector dropped or not x pre-polled or not; (D) every "
+            "subscribers; (E) entry(i) for every index 0..len+1, unused / set / remove, on the vector and in a transaction; (LT) 120 (thorough 600) transactions of 17..40 operations; (C) capacities {1,2,3,4,5,7,8} x 0..B+3 unpolled updates x transactions x vector dropped or not x pre-polled or not; (D) every "
             "keep/set/remove/set-remove/stop decision sequence over vectors of length <=3 (thorough 4), direct and in a transaction; random: 2500 (thorough 150000) "
             "histories of 10..50 (80) steps with up to 4 subscribers of both flavours created/dropped/polled at random, capacities {1,2,3,5,7,16,64}, entries, "
             "transactions, final drop of the vector; the model's ghost replica of every polled subscriber is compared with the harness's strict replica. Engine vconc (C05/C06/C08) — a writer thread against a plain and a "
